@@ -108,6 +108,122 @@ theorem reachable_restart (t : Table) (id : Nat) : reachable (restart t) id = re
         simp only [reachable, List.any_eq_true]; exact ⟨e, mem_restart.mp he, hid⟩
       rw [h] at this; cases this
 
+/-! ### histories of the token table -/
+
+/-- one operation on the token table of `PeerManager` -/
+inductive TOp where
+  | create (id : Nat)                                        -- `create_invite`
+  | accept (inv : Invite)                                    -- `accept_invite` (refused for another application)
+  | accepted (tt : TokenType) (k : Key) (ptok : Token)       -- `invite_accepted`
+  | restart                                                  -- a new `PeerManager` on the same database
+deriving Repr
+
+def applyOp (app : Nat) (t : Table) : TOp → Table
+  | .create id => createInvite t id
+  | .accept inv => (acceptInvite app t inv).getD t
+  | .accepted tt k ptok => inviteAccepted Defects.asImplemented t tt k ptok
+  | .restart => restart t
+
+def applyOps (app : Nat) (t : Table) (ops : List TOp) : Table := ops.foldl (applyOp app) t
+
+/-- the operation does not bring invitation `id` (back) into the table: it neither creates it nor
+    accepts an invitation carrying that id -/
+def TOp.avoids (id : Nat) : TOp → Prop
+  | .create id' => id' ≠ id
+  | .accept inv => inv.id ≠ id
+  | _ => True
+
+instance (id : Nat) (op : TOp) : Decidable (op.avoids id) := by
+  cases op <;> unfold TOp.avoids <;> infer_instance
+
+theorem mem_removeFirst {tok : Token} {tt : TokenType} {e : Token × TokenType} :
+    ∀ {t : Table}, e ∈ removeFirst tok tt t → e ∈ t
+  | [], h => by simp [removeFirst] at h
+  | x :: rest, h => by
+    unfold removeFirst at h
+    split at h
+    · exact List.mem_cons_of_mem _ h
+    · rcases List.mem_cons.mp h with rfl | h'
+      · exact List.mem_cons_self
+      · exact List.mem_cons_of_mem _ (mem_removeFirst h')
+
+/-- every entry of the table after an operation was there before or is what the operation adds -/
+theorem mem_applyOp {app : Nat} {t : Table} {op : TOp} {e : Token × TokenType} (h : e ∈ applyOp app t op) :
+    e ∈ t ∨ (∃ id, op = .create id ∧ e = (.derived id, .ownedInvite id)) ∨
+      (∃ inv, op = .accept inv ∧ inv.app = app ∧ e = (.derived inv.id, .invite inv)) ∨
+      (∃ tt k ptok, op = .accepted tt k ptok ∧ e = (ptok, .allowedPeer k)) := by
+  cases op with
+  | create id =>
+    simp only [applyOp, createInvite, List.mem_append, List.mem_singleton] at h
+    rcases h with h | h
+    · exact Or.inl h
+    · exact Or.inr (Or.inl ⟨id, rfl, h⟩)
+  | accept inv =>
+    simp only [applyOp, acceptInvite] at h
+    by_cases ha : inv.app = app
+    · simp only [ha, ne_eq, not_true_eq_false, if_false, Option.getD_some, List.mem_append, List.mem_singleton] at h
+      rcases h with h | h
+      · exact Or.inl h
+      · exact Or.inr (Or.inr (Or.inl ⟨inv, rfl, ha, h⟩))
+    · simp only [ne_eq, ha, not_false_eq_true, if_true, Option.getD_none] at h
+      exact Or.inl h
+  | accepted tt k ptok =>
+    simp only [applyOp, inviteAccepted] at h
+    have hm : e ∈ t ++ [(ptok, TokenType.allowedPeer k)] := by
+      split at h
+      · exact h
+      · exact mem_removeFirst h
+    simp only [List.mem_append, List.mem_singleton] at hm
+    rcases hm with h' | h'
+    · exact Or.inl h'
+    · exact Or.inr (Or.inr (Or.inr ⟨tt, k, ptok, rfl, h'⟩))
+  | restart => exact Or.inl (mem_restart.mp h)
+
+/-- an invitation that is not reachable stays unreachable through every operation that avoids its id -/
+theorem unreachable_applyOp {app : Nat} {t : Table} {id : Nat} (h : reachable t id = false) {op : TOp}
+    (ha : op.avoids id) : reachable (applyOp app t op) id = false := by
+  cases hr : reachable (applyOp app t op) id with
+  | false => rfl
+  | true =>
+    simp only [reachable, List.any_eq_true, beq_iff_eq] at hr
+    obtain ⟨e, he, hid⟩ := hr
+    have hold : ∀ e' ∈ t, inviteIdOf e'.2 ≠ some id := by
+      intro e' he' hid'
+      have : reachable t id = true := by
+        simp only [reachable, List.any_eq_true]; exact ⟨e', he', by simp [hid']⟩
+      rw [h] at this; cases this
+    rcases mem_applyOp he with h1 | ⟨id', rfl, rfl⟩ | ⟨inv, rfl, _, rfl⟩ | ⟨tt, k, ptok, rfl, rfl⟩
+    · exact absurd hid (hold e h1)
+    · simp only [inviteIdOf, Option.some.injEq] at hid; exact absurd hid ha
+    · simp only [inviteIdOf, Option.some.injEq] at hid; exact absurd hid ha
+    · simp [inviteIdOf] at hid
+
+theorem unreachable_applyOps {app : Nat} {id : Nat} (ops : List TOp) :
+    ∀ {t : Table}, reachable t id = false → (∀ op ∈ ops, op.avoids id) → reachable (applyOps app t ops) id = false := by
+  induction ops with
+  | nil => intro t h _; exact h
+  | cons op rest ih =>
+    intro t h ha
+    simp only [applyOps, List.foldl_cons]
+    exact ih (unreachable_applyOp h (ha op List.mem_cons_self)) (fun o ho => ha o (List.mem_cons_of_mem _ ho))
+
+/-- every accepted invitation held by the table names the application of this instance -/
+def OwnApp (app : Nat) (t : Table) : Prop := ∀ e ∈ t, ∀ inv, e.2 = .invite inv → inv.app = app
+
+theorem ownApp_applyOp {app : Nat} {t : Table} (h : OwnApp app t) (op : TOp) : OwnApp app (applyOp app t op) := by
+  intro e he inv hinv
+  rcases mem_applyOp he with h1 | ⟨id', _, rfl⟩ | ⟨inv', _, happ, rfl⟩ | ⟨tt, k, ptok, _, rfl⟩
+  · exact h e h1 inv hinv
+  · cases hinv
+  · cases hinv; exact happ
+  · cases hinv
+
+theorem ownApp_applyOps {app : Nat} (ops : List TOp) : ∀ {t : Table}, OwnApp app t → OwnApp app (applyOps app t ops) := by
+  induction ops with
+  | nil => intro t h; exact h
+  | cons op rest ih => intro t h; simp only [applyOps, List.foldl_cons]; exact ih (ownApp_applyOp h op)
+
+
 /-! ### key agreement -/
 
 theorem dh_comm (a b : Nat) : dh a (pubOf b) = dh b (pubOf a) := by
